@@ -1527,5 +1527,15 @@ func (s *keysorter) Swap(i, j int) {
 
 // Swap is part of sort.Interface.
 func (s *keysorter) Less(i, j int) bool {
-	return s.hashes[s.index[i]] < s.hashes[s.index[j]]
+	hi, hj := s.hashes[s.index[i]], s.hashes[s.index[j]]
+	if hi != hj {
+		return hi < hj
+	}
+	// Distinct keys may have the same hash. Fall back to a total order so that
+	// the result does not depend on the order in which keys were supplied.
+	ki, kj := s.keys[s.index[i]], s.keys[s.index[j]]
+	if ki.Type != kj.Type {
+		return ki.Type < kj.Type
+	}
+	return ki.String() < kj.String()
 }
